@@ -37,6 +37,9 @@ pub struct Case {
     /// (responses beyond 1 KiB); 2 the same with 4000 bytes
     #[serde(default)]
     pub big: u8,
+    /// the contract store is sloppy: it lists every credential of the RP whatever ids are asked for
+    #[serde(default)]
+    pub sloppy: bool,
 }
 
 const RP: &str = "example.com";
@@ -58,25 +61,29 @@ pub fn cases(tier: Tier) -> Vec<Case> {
                         continue;
                     }
                     let api = if c.op == Op::Make { "make_credential" } else { "get_assertion" };
-                    v.push(Case { api: api.into(), cfg: c.clone(), content, memory_store, prf, unknown_type: false, empty_list: false, fault: 0, big: 0 });
+                    v.push(Case { api: api.into(), cfg: c.clone(), content, memory_store, prf, unknown_type: false, empty_list: false, fault: 0, big: 0, sloppy: false });
                     // store failures with every status value of the menu, for the configurations in
                     // which the user consents and a matching credential exists / none is excluded
                     if !memory_store && !prf && c.outcome == 3 && c.cap == 2 && !c.pin && c.up && matches!(content, Content::MatchViaList | Content::NoMatch) {
                         for fault in 1..=21u8 {
-                            v.push(Case { api: api.into(), cfg: c.clone(), content, memory_store, prf, unknown_type: false, empty_list: false, fault, big: 0 });
+                            v.push(Case { api: api.into(), cfg: c.clone(), content, memory_store, prf, unknown_type: false, empty_list: false, fault, big: 0, sloppy: false });
                         }
+                    }
+                    // a store that lists more than was asked for
+                    if !memory_store && !prf && matches!(content, Content::MatchViaList | Content::TwoViaList | Content::OtherRpOnly) {
+                        v.push(Case { api: api.into(), cfg: c.clone(), content, memory_store, prf, unknown_type: false, empty_list: false, fault: 0, big: 0, sloppy: true });
                     }
                     // large user handles / ids: the response grows beyond 1 KiB and 4 KiB
                     if !prf && c.outcome == 3 && c.cap == 2 && !c.pin && c.up && matches!(content, Content::MatchViaList | Content::MatchNoList | Content::NoMatch) {
                         for big in 1..3u8 {
-                            v.push(Case { api: api.into(), cfg: c.clone(), content, memory_store, prf, unknown_type: false, empty_list: false, fault: 0, big });
+                            v.push(Case { api: api.into(), cfg: c.clone(), content, memory_store, prf, unknown_type: false, empty_list: false, fault: 0, big, sloppy: false });
                         }
                     }
                     if matches!(content, Content::NoMatch | Content::MatchNoList | Content::TwoNoList) {
-                        v.push(Case { api: api.into(), cfg: c.clone(), content, memory_store, prf, unknown_type: false, empty_list: true, fault: 0, big: 0 });
+                        v.push(Case { api: api.into(), cfg: c.clone(), content, memory_store, prf, unknown_type: false, empty_list: true, fault: 0, big: 0, sloppy: false });
                     }
                     if matches!(content, Content::MatchViaList | Content::OtherRpOnly | Content::TwoViaList) && !prf {
-                        v.push(Case { api: api.into(), cfg: c.clone(), content, memory_store, prf, unknown_type: true, empty_list: false, fault: 0, big: 0 });
+                        v.push(Case { api: api.into(), cfg: c.clone(), content, memory_store, prf, unknown_type: true, empty_list: false, fault: 0, big: 0, sloppy: false });
                     }
                 }
             }
@@ -87,7 +94,7 @@ pub fn cases(tier: Tier) -> Vec<Case> {
             for memory_store in [false, true] {
                 for prf in [false, true] {
                     let cfg = C04Case { op: Op::Get, rk: false, up: true, uv: false, cap, presence_cap, outcome: 3, pin: false, arc_mutex: false, level: 0, uvreq: 0, ext: false, wire: 0, flip: false };
-                    v.push(Case { api: "get_info".into(), cfg, content: Content::NoMatch, memory_store, prf, unknown_type: false, empty_list: false, fault: 0, big: 0 });
+                    v.push(Case { api: "get_info".into(), cfg, content: Content::NoMatch, memory_store, prf, unknown_type: false, empty_list: false, fault: 0, big: 0, sloppy: false });
                 }
             }
         }
@@ -228,6 +235,8 @@ where
 fn observe(c: &Case, via_trait: bool) -> Obs {
     let (items, list) = seeds_sized(c.content, c.big);
     let list = if c.empty_list { Some(vec![]) } else { list };
+    // on the sloppy store the list names only the credential the store does NOT list first
+    let list = if c.sloppy && c.content == Content::TwoViaList { Some(vec![cred_id(1)]) } else { list };
     let log = Log::new();
     if c.fault != 0 {
         let (op, status) = (["find", "save", "update"][((c.fault - 1) / 7) as usize % 3], (c.fault - 1) % 7);
@@ -241,7 +250,9 @@ fn observe(c: &Case, via_trait: bool) -> Obs {
         let result = call(c, Logging { inner: shared.clone(), log: log.clone() }, via_trait, list, log.clone());
         Obs { result, store: norm_store(shared.recs()), log: norm_log(log.take()) }
     } else {
-        let shared = Shared::new(RefStore::with(items));
+        let mut rs = RefStore::with(items);
+        rs.ignore_ids = c.sloppy;
+        let shared = Shared::new(rs);
         let result = call(c, Logging { inner: shared.clone(), log: log.clone() }, via_trait, list, log.clone());
         Obs { result, store: norm_store(shared.recs()), log: norm_log(log.take()) }
     }
@@ -474,7 +485,7 @@ pub fn run(ctx: &Ctx) -> Result<Run, String> {
     }
     let mut run = Run::from_stats(
         "model_checking",
-        "differential enumeration: every configuration of the C04 product at CTAP2 level (operation, rk/up/uv, verification capability, validation outcome, pin-auth) x 4 store contents x {contract store, Arc<Mutex<MemoryStore>>} x PRF extension on/off x descriptor type {public-key, unknown}, store failures of find / save / update with seven status *values* (incl. Ctap1(Success), which shares byte 0x00 with Ctap2(Ok)), user handles / user ids of 900 and 4000 bytes (responses beyond 1 KiB / 4 KiB), and getInfo for every capability combination, plus all pairs (thorough: triples) of operations on ONE authenticator with a capability change in between (verification / presence / store capability), each run once through the inherent method and once through <Authenticator as Ctap2Api> on identically seeded authenticators inside isolated worker processes (8 MiB stack, 30 s watchdog); compared: result (status byte or full response incl. RFC 6979 signature bytes; fresh ids/keys normalised), store snapshot, store/user-validation call log. Non-trivial = distinct case whose direct call reached a verdict",
+        "differential enumeration: every configuration of the C04 product at CTAP2 level (operation, rk/up/uv, verification capability, validation outcome, pin-auth) x 4 store contents x {contract store, Arc<Mutex<MemoryStore>>} x PRF extension on/off x descriptor type {public-key, unknown}, store failures of find / save / update with seven status *values* (incl. Ctap1(Success), which shares byte 0x00 with Ctap2(Ok)), a sloppy store that lists every credential of the RP whatever ids are asked for, user handles / user ids of 900 and 4000 bytes (responses beyond 1 KiB / 4 KiB), and getInfo for every capability combination, plus all pairs (thorough: triples) of operations on ONE authenticator with a capability change in between (verification / presence / store capability), each run once through the inherent method and once through <Authenticator as Ctap2Api> on identically seeded authenticators inside isolated worker processes (8 MiB stack, 30 s watchdog); compared: result (status byte or full response incl. RFC 6979 signature bytes; fresh ids/keys normalised), store snapshot, store/user-validation call log. Non-trivial = distinct case whose direct call reached a verdict",
         true,
         stats,
     );
